@@ -217,6 +217,7 @@ def run_case(case):
     viol = []
     seq = [0]
     last_release = {}
+    owns = set()
 
     def V(sig, detail):
         if not viol:
@@ -240,7 +241,10 @@ def run_case(case):
             # release is answered True (until then isAcquired() may still read the pre-release state of its replica)
             if r and last_release.get((rec['client'], rec['lock']), 0) < rec['seq']:
                 gave_up.discard((rec['client'], rec['lock']))
-            if not r and not any(r2 is not rec and r2['client'] == rec['client'] and r2['lock'] == rec['lock'] and r2['t'] >= rec['t'] for r2 in attempts):
+                owns.add((rec['client'], rec['lock']))
+            if not r:
+                owns.discard((rec['client'], rec['lock']))     # told "not acquired" (the library also sends a release)
+            if not r and not any(r2 is not rec and r2['client'] == rec['client'] and r2['lock'] == rec['lock'] and r2['seq'] > rec['seq'] for r2 in attempts):
                 gave_up.add((rec['client'], rec['lock']))      # told "not acquired" (e.g. too late): it does not consider the lock its own
         sim.call(name, lambda: sim.nodes[name].mgr.tryAcquire(lock, callback=cb))
         return (name, lock)
@@ -250,6 +254,7 @@ def run_case(case):
         name = cl[a % len(cl)]
         lock = LOCKS[b % len(LOCKS)]
         gave_up.add((name, lock))
+        owns.discard((name, lock))
         seq[0] += 1
         last_release[(name, lock)] = seq[0]
         sim.call(name, lambda: sim.nodes[name].mgr.release(lock))
@@ -279,7 +284,9 @@ def run_case(case):
 
     def invariant():
         for lock in LOCKS:
-            holders = [n for n in clients() if (n, lock) not in gave_up and sim.nodes[n].mgr.isAcquired(lock)]
+            # a client considers a lock its own when a tryAcquire of it was answered True and it has neither released
+            # since nor been told False by a later answer; isAcquired() adds what its replica knows about expiry
+            holders = [n for n in clients() if (n, lock) in owns and (n, lock) not in gave_up and sim.nodes[n].mgr.isAcquired(lock)]
             if len(holders) > 1:
                 V('two-clients-hold-lock', 'lock %s is considered held by %r at wall time %.2f; tables %r' % (
                     lock, holders, Wall.t, dict((n, sim.nodes[n].table().get(lock)) for n in holders)))
@@ -331,13 +338,19 @@ def run_case(case):
                 stopped.update(clients())
                 other = [n for n in clients() if n != holder][0]
                 Wall.t = max(Wall.t, tlast) + aut + 0.5
-                rec = {'client': other, 'lock': lock, 't': Wall.t, 'cbs': []}
-                attempts.append(rec)
-                sim.call(other, lambda: sim.nodes[other].mgr.tryAcquire(lock, callback=lambda r, e: rec['cbs'].append((r, e, Wall.t))))
-                for _ in range(200):
-                    sim.calm_round()
-                    sim.check(light=True)
-                    if rec['cbs'] or sim.viol:
+                for attempt in range(4):
+                    # a definite refusal for lack of a leader (MISSING_LEADER with commandsWaitLeader=False, NOT_LEADER,
+                    # LEADER_CHANGED, DISCARDED) says nothing about the lock: the client tries again once a leader is known
+                    sim.rounds_until(lambda: sum(1 for n in sim.live() if sim.nodes[n]._isLeader()) == 1 and sim.nodes[other]._getLeader() is not None, 400)
+                    rec = {'client': other, 'lock': lock, 't': Wall.t, 'cbs': [], 'seq': 10 ** 9 + attempt}
+                    attempts.append(rec)
+                    sim.call(other, lambda rec=rec: sim.nodes[other].mgr.tryAcquire(lock, callback=lambda r, e: rec['cbs'].append((r, e, Wall.t))))
+                    for _ in range(200):
+                        sim.calm_round()
+                        sim.check(light=True)
+                        if rec['cbs'] or sim.viol:
+                            break
+                    if sim.viol or not rec['cbs'] or rec['cbs'][0][1] not in (2, 3, 4, 5):
                         break
                 if not sim.viol and rec['cbs'] != [(True, 0, Wall.t)]:
                     V('expired-lock-not-obtainable', 'lock %s last prolonged by %s at %.2f; %s tried at %.2f (autoUnlockTime %.1f) and got %r; table %r' % (
